@@ -369,12 +369,12 @@ def replay(ctx, rec):
     c.update(r.get("extra") or {})
     t = run_cfg((r["seed"], c))
     if t["gen_error"]:
-        print(f"VIOLATION property=C07 replay=(given) generator raised {t['gen_error']}")
+        print(f"VIOLATION property=C07 replay={rec.get('path', '(given)')} generator raised {t['gen_error']}")
         return 1
     t.pop("gen_error")
     rej = ctx.validate_traces("Trace_Fragmentation", "Trace_Fragmentation.cfg", [t])
     if rej:
-        print(f"VIOLATION property=C07 replay=(given) why={rej[0][2]}")
+        print(f"VIOLATION property=C07 replay={rec.get('path', '(given)')} why={rej[0][2]}")
         return 1
     print("replay: property holds for this configuration")
     return 0
